@@ -10,17 +10,27 @@ import re
 ROOT = os.path.dirname(os.path.dirname(os.path.abspath(__file__)))
 
 
+def _thorough(pid):
+    f = os.path.join(ROOT, 'evidence', 'thorough', f'{pid}.json')
+    if not os.path.exists(f):
+        return '-'
+    e = json.load(open(f))
+    c = e.get('coverage', {})
+    return '{} inst, {} paths, {}/{} obl., {} s'.format(c.get('harness_instances'), c.get('states'), c.get('discharged'),
+                                                        c.get('obligations'), e.get('wall_s'))
+
+
 def status_table():
-    rows = ['| property | tier of the evidence file | instances | paths | solver queries | solver s | wall s | obligations discharged | known findings reproduced |',
-            '|---|---|---|---|---|---|---|---|---|']
+    rows = ['| property | tier of the evidence file | instances | paths | solver queries | solver s | wall s | obligations discharged | known findings reproduced | thorough tier (evidence/thorough) |',
+            '|---|---|---|---|---|---|---|---|---|---|']
     for f in sorted(glob.glob(os.path.join(ROOT, 'evidence', 'C*.json'))):
         e = json.load(open(f))
         c = e.get('coverage', {})
         kf = c.get('known_findings_reproduced', []) or []
-        rows.append('| {} | {} | {} | {} | {} | {} | {} | {}/{} | {} |'.format(
+        rows.append('| {} | {} | {} | {} | {} | {} | {} | {}/{} | {} | {} |'.format(
             e.get('property_id'), e.get('tier', ''), c.get('harness_instances', ''), c.get('states', ''),
             c.get('queries', ''), c.get('solver_s', ''), e.get('wall_s', ''), c.get('discharged', ''),
-            c.get('obligations', ''), ', '.join(kf) if kf else '-'))
+            c.get('obligations', ''), ', '.join(kf) if kf else '-', _thorough(e.get('property_id'))))
     return '\n'.join(rows)
 
 
